@@ -2216,7 +2216,7 @@ impl CharacterDataMut for XmlText {
         if self.length() < offset {
             Err(error::DomException::IndexSizeErr)?
         } else {
-            self.data.borrow_mut().delete(offset, count);
+            self.data.borrow_mut().replace(offset, count, "")?;
             Ok(())
         }
     }
@@ -2380,7 +2380,7 @@ impl CharacterDataMut for XmlComment {
         if self.length() < offset {
             Err(error::DomException::IndexSizeErr)?
         } else {
-            self.data.borrow_mut().delete(offset, count);
+            self.data.borrow_mut().replace(offset, count, "")?;
             Ok(())
         }
     }
@@ -2573,7 +2573,7 @@ impl CharacterDataMut for XmlCDataSection {
         if self.length() < offset {
             Err(error::DomException::IndexSizeErr)?
         } else {
-            self.data.borrow_mut().delete(offset, count);
+            self.data.borrow_mut().replace(offset, count, "")?;
             Ok(())
         }
     }
